@@ -15,6 +15,7 @@ import (
 	"context"
 	"fmt"
 	"io"
+	"os"
 	"reflect"
 	"regexp"
 	"runtime"
@@ -28,10 +29,28 @@ import (
 	"github.com/M2MGateway/go-smpp/pdu"
 )
 
-const (
+var (
 	quiesceCap = 3 * time.Second // a run that does not come to rest within this is reported
 	promptly   = time.Second     // C15: a blocked call must return within this after the event
+	relaxed    = false           // third run of a scenario that failed twice / VERIF_RELAXED=1: wall-clock bounds five times as wide
 )
+
+// setRelaxed widens every wall-clock bound of the harness (never a bound of the library): used for the
+// last re-run of a scenario before a timing-dependent failure is reported.
+func setRelaxed(on bool) {
+	relaxed = on
+	if on {
+		quiesceCap, promptly = 15*time.Second, 5*time.Second
+	} else {
+		quiesceCap, promptly = 3*time.Second, time.Second
+	}
+}
+
+func init() {
+	if os.Getenv("VERIF_RELAXED") == "1" {
+		setRelaxed(true)
+	}
+}
 
 var (
 	idOfTypeOnce sync.Once
@@ -606,6 +625,19 @@ func (w *World) Release(c *Call) bool {
 			w.force(fmt.Sprintf("WriteReturn %d", c.ID))
 			w.T.ReleaseWrite(wr.Idx)
 			w.sync()
+			return true
+		}
+	}
+	return false
+}
+
+// ReleaseNoSync lets the held Write of call c return without closing the forced group: used when what
+// follows is driven by a timer of the library, so that no snapshot depends on the timer's progress.
+func (w *World) ReleaseNoSync(c *Call) bool {
+	for _, wr := range w.T.Writes() {
+		if wr.held && wr.Seq == c.Seq && len(wr.Data) >= 16 {
+			w.force(fmt.Sprintf("WriteReturn %d", c.ID))
+			w.T.ReleaseWrite(wr.Idx)
 			return true
 		}
 	}
